@@ -85,6 +85,7 @@ func main() {
 				os.Exit(1)
 			}
 			sub.P = p
+			rv.CurrentProg = p
 			sub.Packages = len(p.Pkgs)
 			def.Run(sub)
 			r.Configs = append(r.Configs, p.Config)
